@@ -180,7 +180,9 @@ register("C09", "fault_enumeration",
          "distinct+non-trivial = distinct (state, call, knobs, set of (event kind, path class) at which a "
          "permanent path had just changed)",
          COMMON_ASSUME + ["cid reference lists are updated in place by design and are not in the statement",
-                          "fault-free runs only (shutil.move falls back to copy only after an injected rename failure)",
+                          "the monitor also runs during calls that meet one injected I/O error (part atom-under-fault), except a failing "
+                          "rename: shutil.move then copies into the destination, its documented fall-back, which C09's quantifier "
+                          "(points of fault-free calls) does not cover",
                           "an instantaneous look at the directory is the strongest reader (a POSIX reader that already "
                           "opened a file keeps the old inode across rename-replace)"],
          40, 480,
@@ -191,7 +193,8 @@ register("C09", "fault_enumeration",
           SingleRandomPart("C09", "ATOM", "atom-random", weight=1.0),
           ConcPart("C09", "obj", name="atom-conc-obj", atom=True, weight=1.0),
           ConcPart("C09", "meta", name="atom-conc-meta", atom=True, weight=0.7),
-          SeqIPart("C09", weight=0.8)])
+          SeqIPart("C09", weight=0.8),
+          SingleRandomPart("C09", "FAULT", "atom-under-fault", weight=0.8, kinds="ext", atom=True)])
 
 
 def _c17_hooks(prog):
